@@ -233,3 +233,32 @@ fn de_i(v: &serde_json::Value) -> Result<InfCase, String> {
 fn de_m(v: &serde_json::Value) -> Result<MsCase, String> {
     serde_json::from_value(v.clone()).map_err(|e| e.to_string())
 }
+
+/// Decodes a libFuzzer artifact of `fz_comp` the way the target does and re-runs it.
+/// Returns the case and the mismatch, if any.
+pub fn rejudge_fuzz_bytes(id: &str, data: &[u8]) -> Option<(serde_json::Value, String)> {
+    use crate::comp_bytes::*;
+    let (v, r) = match id {
+        "C11" => {
+            let c = q_case(data);
+            (serde_json::to_value(&c).ok()?, run_quorum(&c, &mut QStats::default()))
+        }
+        "C12" => {
+            let c = c_case(data);
+            (serde_json::to_value(&c).ok()?, run_conf(&c, &mut CStats::default()))
+        }
+        "C14" => {
+            let c = log_case(data);
+            (serde_json::to_value(&c).ok()?, run_log(&c, &mut LogStats::default()))
+        }
+        "C19" => {
+            let c = ms_case(data);
+            (serde_json::to_value(&c).ok()?, run_memstorage(&c, &mut MsStats::default()))
+        }
+        _ => {
+            let c = inf_case(data);
+            (serde_json::to_value(&c).ok()?, run_inflights(&c, &mut InfStats::default()))
+        }
+    };
+    r.err().map(|e| (v, e))
+}
